@@ -315,6 +315,18 @@ Theorem C04_leave_group_wf : forall orc cid corr group member,
 Proof. exact leave_group_conforms. Qed.
 Print Assumptions C04_leave_group_wf.
 
+Theorem C04_subscription_wf : forall version subs ud, subscription_wf version subs ud = true ->
+  exists w, encode_join_group_protocol_metadata version subs ud = Ok w /\
+            parse_subscription w = Some (version, map ubytes subs, ud).
+Proof. exact subscription_conforms. Qed.
+Print Assumptions C04_subscription_wf.
+
+Theorem C04_assignment_wf : forall version asg ud, assignment_wf version asg ud = true ->
+  exists w, encode_sync_group_member_assignment version asg ud = Ok w /\
+            parse_assignment w = Some (version, map (fun tp : text * list Z => (abytes (fst tp), snd tp)) asg, ud).
+Proof. exact assignment_conforms. Qed.
+Print Assumptions C04_assignment_wf.
+
 (* ---- payload lists with repeated (topic, partition) ----
    With distinct keys nothing is lost: every payload of the list is stored (and hence encoded) under its own key. *)
 Theorem C04_group_complete : forall {Pl} (topic : Pl -> text) (part : Pl -> Z) ps x,
